@@ -29,13 +29,21 @@ import (
 //   pkg2ref : reference.Decrypt(xmlenc.Encrypt(p))
 //   ref2pkg : xmlenc.Decrypt(reference.Encrypt(p))     (term emitted by TLC, evaluated here)
 // The statement requires the plaintext back in all three: every vector is MustAccept.
+// Family "lex" (round 3): direction ref2pkg only; the independent producer writes the same ciphertext in
+// the LEXICAL FORM the vector names (xmlenc_lex.go: other namespace prefixes, default-namespace
+// declarations, declarations on an ancestor, attribute order, white space and comments between child
+// elements) and with the key information conformant producers embed (certificate, X509IssuerSerial +
+// certificate, none).  A consumer that interoperates is prefix-agnostic: MustAccept whatever the form.
 
 type c10Case struct {
+	Fam   string `json:"fam"` // base | lex
 	Bc    string `json:"bc"`
 	Kt    string `json:"kt"`
 	Dm    string `json:"dm"`
 	Plen  int    `json:"plen"`
 	Nonce string `json:"nonce"`
+	Lex   xeLex  `json:"lex"` // lexical form of the independent producer's element
+	Ki    string `json:"ki"`  // X509Data class the independent producer embeds in the EncryptedKey
 }
 type c10Out struct {
 	K      string `json:"k"`
@@ -43,13 +51,14 @@ type c10Out struct {
 	Nondet bool   `json:"nondet"`
 }
 type c10Vec struct {
-	Model   string  `json:"model"`
-	Case    c10Case `json:"case"`
-	Class   string  `json:"class"`
-	Req     string  `json:"req"`
-	Cvlen   int     `json:"cvlen"`
-	Closure bool    `json:"closure"`
-	Refel   xeEl    `json:"refel"`
+	Model   string    `json:"model"`
+	Case    c10Case   `json:"case"`
+	Class   string    `json:"class"`
+	Req     string    `json:"req"`
+	Cvlen   int       `json:"cvlen"`
+	Closure bool      `json:"closure"`
+	Refel   xeEl      `json:"refel"`
+	X509    []c11X509 `json:"x509"` // X509Data of the levels of refel (data level, EncryptedKey)
 	Pred    struct {
 		Self    c10Out `json:"self"`
 		Pkg2ref c10Out `json:"pkg2ref"`
@@ -168,6 +177,7 @@ type c10Run struct {
 	Wrote    []string
 	Long     bool
 	PlainLen int
+	Fault    string // harness fault (family lex): the reference could not read its own element
 }
 
 func pkgDecrypt(k any, el *etree.Element) (out []byte, err error, panicked bool, msg string) {
@@ -257,10 +267,53 @@ func c10Execute(c c10Case, refel *xeEl, rng *rand.Rand, plen int) *c10Run {
 	return r
 }
 
+// c10ExecuteLex runs a case of family "lex": the reference element of the vector, with the key information of the
+// vector, written in the lexical form of the vector, is handed to the package.  The reference reads the text it wrote
+// first: a form that it cannot read itself, or that resolves an element to another namespace, is a harness fault.
+func c10ExecuteLex(v *c10Vec, rng *rand.Rand) *c10Run {
+	c := v.Case
+	r := &c10Run{Obs: map[string]c10Obs{}, PlainLen: c.Plen}
+	alg := refBlockByName(c.Bc)
+	r.P = make([]byte, c.Plen)
+	rng.Read(r.P)
+	r.K = make([]byte, alg.Key)
+	rng.Read(r.K)
+	var decKey any = r.K
+	if c.Kt != "direct" {
+		decKey = key("sp").RSA()
+	}
+	ctx := newXeCtx(rng)
+	ctx.set("P", r.P)
+	ctx.set("K", r.K)
+	x509 := v.X509
+	if c.Kt == "direct" && len(x509) > 1 {
+		x509 = x509[:1]
+	}
+	el := c11BuildEl(ctx, v.Refel, x509)
+	root, xmlb, err := xeRender(el, c.Lex)
+	r.RefXML = string(xmlb)
+	if err != nil {
+		r.Fault = "reference output does not parse: " + err.Error()
+		return r
+	}
+	if err := xeNamespaceOK(root); err != nil {
+		r.Fault = "lexical form changes the element tree: " + err.Error()
+		return r
+	}
+	if want, err := refDecrypt(decKey, root); err != nil || !bytes.Equal(want, r.P) {
+		r.Fault = fmt.Sprintf("the reference cannot read its own element in this form: %v", err)
+		return r
+	}
+	root, _ = xeParseTarget(xmlb)
+	got, derr, pp, pmsg := pkgDecrypt(decKey, root)
+	r.Obs["ref2pkg"] = c10Classify(pp, pmsg, got, derr, r.P)
+	return r
+}
+
 func (r *c10Run) replay(kind string, c c10Case, dir string) map[string]any {
 	return map[string]any{"kind": kind, "case": c, "dir": dir, "plen": r.PlainLen,
 		"p_b64": base64.StdEncoding.EncodeToString(r.P), "k_b64": base64.StdEncoding.EncodeToString(r.K),
-		"nonce_b64": base64.StdEncoding.EncodeToString(r.Nonce),
+		"nonce_b64":   base64.StdEncoding.EncodeToString(r.Nonce),
 		"package_xml": r.PkgXML, "reference_xml": r.RefXML, "observed": r.Obs}
 }
 
@@ -497,7 +550,8 @@ func c10LenKey(failing map[int]bool, all []int) []string {
 func TestC10(t *testing.T) {
 	rep := NewReport("C10")
 	defer rep.Finish(t)
-	rep.Rule = "every terminal state of spec/XmlEnc.tla family C10 (block cipher x key transport/digest x plaintext length 0..4 blocks+1 x supplied/generated nonce) is run with random contents and keys in three directions: xmlenc.Decrypt(xmlenc.Encrypt(p)), reference.Decrypt(xmlenc.Encrypt(p)), xmlenc.Decrypt(reference.Encrypt(p)) where the reference is a standard-library-only implementation of the W3C identifiers (validated against the W3C sample ciphertexts in xmlenc/corpus); plus random longer plaintexts and the key-transport layer on its own; non-trivial = every (case, direction), all MustAccept"
+	rep.Rule = "every terminal state of spec/XmlEnc.tla family C10 (block cipher x key transport/digest x plaintext length 0..4 blocks+1 x supplied/generated nonce) is run with random contents and keys in three directions: xmlenc.Decrypt(xmlenc.Encrypt(p)), reference.Decrypt(xmlenc.Encrypt(p)), xmlenc.Decrypt(reference.Encrypt(p)) where the reference is a standard-library-only implementation of the W3C identifiers (validated against the W3C sample ciphertexts in xmlenc/corpus); plus random longer plaintexts and the key-transport layer on its own; family lex (direction reference -> package): for every key transport x {aes128-cbc, aes128-gcm} (thorough: four ciphers, two lengths) the reference element is written in every enumerated lexical form - the three namespaces bound to the package's prefixes / other prefixes / the default namespace, uniformly and mixed; declarations on the element that needs them / on every element / on the element handed to Decrypt / on an enclosing element; attributes in either order; white space and comments between child elements - and with the key information conformant producers embed (certificate, X509IssuerSerial + certificate, none); each text is read back by the reference before the package is asked; non-trivial = every (case, direction), all MustAccept"
+	rep.Assume("a producer's choice of namespace prefixes, place of namespace declarations, attribute order, white space and comments between child elements does not change the element tree (XML namespaces, XML-Encryption schema): 'interoperates' is required in every such form; only the enumerated forms are exercised (54 quick, 192 thorough, of 864)")
 	rep.Assume("the reference implementation in harness/xmlenc_helpers.go is the independent implementation of the statement: MGF1-SHA-1 for rsa-oaep-mgf1p, xenc11:MGF (default MGF1-SHA-1) for xmlenc11 rsa-oaep, W3C digest identifiers; it is checked against crypto/rsa and the W3C merlin-xmlenc-five samples on every run")
 	lines := loadLines(t, "vectors.ndjson")
 	if len(lines) == 0 {
@@ -521,6 +575,9 @@ func TestC10(t *testing.T) {
 			return
 		}
 		ck := fmt.Sprintf("%s/%s/%s/%d", v.Case.Bc, c10KtName(v.Case), v.Case.Nonce, v.Case.Plen)
+		if v.Case.Fam == "lex" {
+			ck = "lex/" + ck + "/" + v.Case.Ki + "/" + v.Case.Lex.name()
+		}
 		if first, ok := byCase[ck]; ok {
 			first.alt = append(first.alt, v)
 			continue
@@ -538,6 +595,37 @@ func TestC10(t *testing.T) {
 		}
 		if a.Nonce != b.Nonce {
 			return a.Nonce < b.Nonce
+		}
+		return a.Plen < b.Plen
+	})
+
+	// family "lex" is run and judged on its own (below): the block-cipher / key-transport layers are judged on
+	// the package's own lexical form first
+	var lexVecs []*c10Vec
+	{
+		var base []*c10Vec
+		for _, v := range vecs {
+			if v.Case.Fam == "lex" {
+				lexVecs = append(lexVecs, v)
+			} else {
+				base = append(base, v)
+			}
+		}
+		vecs = base
+	}
+	sort.SliceStable(lexVecs, func(i, j int) bool {
+		a, b := lexVecs[i].Case, lexVecs[j].Case
+		if c10KtName(a) != c10KtName(b) {
+			return c10KtName(a) < c10KtName(b)
+		}
+		if a.Ki != b.Ki {
+			return a.Ki < b.Ki
+		}
+		if a.Lex.name() != b.Lex.name() {
+			return a.Lex.name() < b.Lex.name()
+		}
+		if a.Bc != b.Bc {
+			return a.Bc < b.Bc
 		}
 		return a.Plen < b.Plen
 	})
@@ -789,6 +877,57 @@ func TestC10(t *testing.T) {
 			rep.Violation(k, c10Clause(d, fmt.Sprintf("%s with %s, %d-octet plaintext, %s nonce", c.Bc, c10KtName(c), r.PlainLen, c.Nonce), r.Obs[d]), r.replay("case", c, d))
 		}
 	}
+	// family "lex": the independent producer's lexical forms and key information, direction ref2pkg
+	lexRuns := make([]*c10Run, len(lexVecs))
+	parallel(len(lexVecs), func(i int) {
+		c := lexVecs[i].Case
+		lexRuns[i] = c10ExecuteLex(lexVecs[i], newRand(fmt.Sprintf("c10/lex/%s/%s/%d/%s/%s", c.Bc, c10KtName(c), c.Plen, c.Ki, c.Lex.name())))
+	})
+	lexForms, lexFail := map[string]bool{}, 0
+	for i, v := range lexVecs {
+		c, r := v.Case, lexRuns[i]
+		if r.Fault != "" {
+			rep.Break("family lex, %s %s %s %s: %s\n%s", c.Bc, c10KtName(c), c.Ki, c.Lex.name(), r.Fault, r.RefXML)
+			return
+		}
+		id := fmt.Sprintf("lex/%s/%s/%d/%s/%s", c.Bc, c10KtName(c), c.Plen, c.Ki, c.Lex.name())
+		rep.Eval("MustAccept", id)
+		rep.Trace(1)
+		lexForms[c.Lex.name()] = true
+		o := r.Obs["ref2pkg"]
+		match := false
+		for _, m := range v.models() {
+			if q := m.pred("ref2pkg"); q.K == o.K || (q.Nondet && (o.K == "error" || o.K == "wrongtext")) {
+				match = true
+				modelHit[m.Model]++
+				break
+			}
+		}
+		if match {
+			agree++
+		} else {
+			disagree++
+		}
+		if i%211 == 0 {
+			rep.Sample(map[string]any{"case": c, "lexical_form": c.Lex.name(), "predicted": v.Pred.Ref2pkg, "real": o, "reference_xml": r.RefXML})
+		}
+		if o.K == "plaintext" {
+			continue
+		}
+		lexFail++
+		// only what neither layer explains in the package's own form
+		if ktFail[c10KtName(c)]["ref2pkg"] || directFail[cell{c.Bc, "ref2pkg", "supplied"}][c.Plen] {
+			continue
+		}
+		k := fmt.Sprintf("C10:lexical:kt=%s:x509=%s:%s", c10KtName(c), c.Ki, c.Lex.name())
+		rep.Violation(k, fmt.Sprintf("the package does not decrypt the independent implementation's ciphertext (%s with %s, %d-octet plaintext) when the element is written in the lexical form %s with key information %s (the same ciphertext in the package's own form is decrypted): %s %s",
+			c.Bc, c10KtName(c), c.Plen, c.Lex.name(), c.Ki, o.K, o.Detail), r.replay("lex", c, "ref2pkg"))
+	}
+	rep.Extra["lexical_forms"] = len(lexForms)
+	rep.Extra["lexical_cases"] = len(lexVecs)
+	rep.Extra["lexical_cases_not_decrypted"] = lexFail
+	rep.Extra["model_prediction_agrees"] = agree
+	rep.Extra["model_prediction_differs"] = disagree
 	if rep.Classes["MustAccept"] == 0 {
 		rep.Break("vacuous: no MustAccept cases")
 	}
@@ -853,6 +992,25 @@ func init() {
 		case "kt":
 			o := c10RunKt(r.Case, r.KeyLen, newRand("replay"))
 			return o.Obs[r.Dir].K != "plaintext", o.Obs[r.Dir].K + " " + o.Obs[r.Dir].Detail
+		case "lex":
+			// the stored reference element itself, in its lexical form
+			p, _ := base64.StdEncoding.DecodeString(r.P)
+			k, _ := base64.StdEncoding.DecodeString(r.K)
+			var dk any = k
+			if r.Case.Kt != "direct" {
+				dk = key("sp").RSA()
+			}
+			root, err := xeParseTarget([]byte(r.RefXML))
+			if err != nil {
+				t.Fatal(err)
+			}
+			if want, err := refDecrypt(dk, root); err != nil || !bytes.Equal(want, p) {
+				t.Fatalf("stored reference ciphertext is not valid: %v", err)
+			}
+			root, _ = xeParseTarget([]byte(r.RefXML))
+			got, derr, pp, pmsg := pkgDecrypt(dk, root)
+			o := c10Classify(pp, pmsg, got, derr, p)
+			return o.K != "plaintext", o.K + " " + o.Detail
 		case "case":
 			if r.Dir == "ref2pkg" {
 				// the stored reference ciphertext itself
